@@ -267,4 +267,23 @@ Definition policy_covered : bool :=
     forallb (fun fp => existsb (fun r => String.eqb (a_struct r) (fst sp) && String.eqb (a_field r) (fst fp)) accesses)
             (snd sp)) policy_table.
 
+(* ---- reference hand-off (a LIFETIME rule, outside the data-race theorem): a new reference
+   on a Snapshot may only be taken (Snapshot.addRef) by the function that created it (the
+   receiver is a fresh local, the creator owns the initial reference), or on the snapshot
+   read from X.root while X.rootLock is held (read or write mode): between reading the root
+   pointer and taking the reference the introducer must not be able to replace the root and
+   drop its last reference (index/writer.go currentSnapshot, index/persister.go:65-76). *)
+Definition addref_ok (r : addref_row) : bool :=
+  closure_none (r_closure r) &&
+  (r_fresh r ||
+   (negb (String.eqb (r_root_of r) "") &&
+    existsb (fun h => String.eqb (hl_base h) (r_root_of r) && String.eqb (hl_name h) "Writer.rootLock") (r_locks r))).
+
+Definition has_addref (fn : string) (from_root : bool) : bool :=
+  existsb (fun r => String.eqb (r_func r) fn && Bool.eqb (negb (String.eqb (r_root_of r) "")) from_root) snapshot_addrefs.
+
+Definition addrefs_ok : bool :=
+  forallb addref_ok snapshot_addrefs &&
+  has_addref "Writer.currentSnapshot" true && has_addref "Writer.persisterLoop" true.
+
 Definition bad_rows : list access_row := filter (fun r => negb (row_ok r)) accesses.
